@@ -50,21 +50,24 @@ namespace Givaro {
     }
 
     TMPL
-    COND_TMPL(Source, IS_FLOAT(Source) && (sizeof(Source) >= sizeof(Storage_t)) && IS_SINT(Storage_t))
+    COND_TMPL(Source, IS_FLOAT(Source) && IS_SINT(Storage_t))
     inline typename MOD::Element&
     MOD::init (Element& x, const Source y) const
     {
-        x = Caster<Element>(std::fmod(y, Source(_p)));
+        // a float is reduced as a double: the modulus need not be representable in 24 bits
+        typedef typename std::conditional<std::is_same<Source, float>::value, double, Source>::type Wide;
+        x = Caster<Element>(std::fmod(Wide(y), Wide(_p)));
         if (x < Source(0.0)) x = Caster<Element>(x + _p);
         return x;
     }
 
     TMPL
-    COND_TMPL(Source, IS_FLOAT(Source) && sizeof(Source) >= sizeof(Storage_t) && IS_UINT(Storage_t))
+    COND_TMPL(Source, IS_FLOAT(Source) && IS_UINT(Storage_t))
     inline typename MOD::Element&
     MOD::init (Element& x, const Source y) const
     {
-        x = Caster<Element>(std::fmod((y < 0.0 ? -y : y), Source(_p)));
+        typedef typename std::conditional<std::is_same<Source, float>::value, double, Source>::type Wide;
+        x = Caster<Element>(std::fmod(Wide(y < 0.0 ? -y : y), Wide(_p)));
         return ( (y < 0.0) ? negin(x) : x);
     }
 
@@ -80,7 +83,7 @@ namespace Givaro {
     TMPL
     COND_TMPL(Source, IS_UINT(Storage_t)
               &&!(IS_INT(Source) && (sizeof(Source) > sizeof(Storage_t))) &&!(IS_UINT(Source) && (sizeof(Source) == sizeof(Storage_t)))
-              &&!(IS_FLOAT(Source) && (sizeof(Source) >= sizeof(Storage_t))))
+              &&!IS_FLOAT(Source))
     inline typename MOD::Element&
     MOD::init (Element& x, const Source& y) const
     {
@@ -94,7 +97,7 @@ namespace Givaro {
     TMPL
     COND_TMPL(Source, IS_SINT(Storage_t)
               &&!(IS_INT(Source) && (sizeof(Source) > sizeof(Storage_t))) &&!(IS_UINT(Source) && (sizeof(Source) == sizeof(Storage_t)))
-              &&!(IS_FLOAT(Source) && (sizeof(Source) >= sizeof(Storage_t))))
+              &&!IS_FLOAT(Source))
     inline typename MOD::Element&
     MOD::init (Element& x, const Source& y) const
     {
